@@ -501,6 +501,8 @@ def impl(py):
               {"time": datetime.datetime(2001, 2, 9), "width": 40}]
         decoys.append(TimelineSVG([dict(x) for x in dd], {"direction": other}))
         decoys.append(TimelineTex([dict(x) for x in dd], {"direction": other, "labella": {"maxPos": 50, "nodeSpacing": 9}}))
+    if decoys and len(py["data"]) % 2 == 0:
+        decoys[0].export()            # ... and one of them is exported first
     svg = tls.export()
     tlt = TimelineTex(d2, o2)
     if decoys:
